@@ -70,8 +70,10 @@ impl MetricsServer {
     pub fn init(&mut self) -> Result<(), Error> {
         // both values are handed to the router later, which panics on what it does not accept
         ensure!(
-            self.api_prefix.starts_with('/') && !self.api_prefix.contains('*'),
-            "metrics.apiPrefix must start with '/' and must not contain '*': {}",
+            self.api_prefix.starts_with('/')
+                && !self.api_prefix.contains('*')
+                && !self.api_prefix.contains(':'),
+            "metrics.apiPrefix must start with '/' and must not contain '*' or ':' (path parameters of the router): {}",
             self.api_prefix
         );
         ensure!(
